@@ -11,7 +11,7 @@ vars == <<phase, goods, bad, badpos, ending>>
 
 Good == << "addi a0, a0, 1", "L1:", ".word 7", "# only a comment", "", "beq a0, t1, L1",
            "sw a0, 4(sp) # tail comment", "ecall", "mv t1, a0", "lw a0, 4", "sw a0, 8", "jalr a0, 0", "jalr a0",
-           ".word 1 2", "la t0, L1" >>
+           ".word 1 2", "la t0, L1", ".asciz \"hi\"", ".asciz \"a b\"# c" >>
 \* name, text
 Bad == <<
   [n |-> "missing-last-operand",  t |-> "addi a0, a0"],
@@ -31,6 +31,8 @@ Bad == <<
   [n |-> "colon-alone",           t |-> ": x"],
   [n |-> "missing-include",       t |-> ".include \"nofile.s\""],
   [n |-> "missing-include-then-comment", t |-> ".include \"nofile.s\" # gone"],
+  [n |-> "string-operand",        t |-> "li a0, \"x\""],
+  [n |-> "string-alone",          t |-> "\"x\""],
   [n |-> "none",                  t |-> "mv t2, a0"] >>
 Endings == {"lf", "crlf", "lf-nofinal"}
 
